@@ -84,11 +84,40 @@ def lift_list(v: Val, want: TList = None) -> VList:
             if isinstance(es, TRefS):
                 es = Ref
             want = TList(es)
-        arr = z3.K(z3.IntSort(), default_term(want.elem))
+        arr = const_array(z3.IntSort(), want.elem)
         for i, it in enumerate(v.items):
             arr = z3.Store(arr, i, coerce(it, want.elem).t)
         return VList(want.mk(z3.IntVal(len(v.items)), arr), want)
     raise Unsupported("lift_list of %r" % (v,))
+
+
+DEFAULT_AXIOMS = []
+_DARR = {}
+
+
+def _is_value_default(s: Sort):
+    if isinstance(s, (TIntS, TRefS, TTypeS, TBoolS, TStrS)):
+        return True
+    if isinstance(s, TList):
+        return _is_value_default(s.elem)
+    if isinstance(s, TRec):
+        return all(_is_value_default(fs) for _, fs in s.fields)
+    if isinstance(s, TOpt):
+        return True
+    return False
+
+
+def const_array(idx_z3sort, elem: Sort, tag="i"):
+    "array that holds default_term(elem) everywhere (cvc5 only accepts `as const` with literal values)"
+    if _is_value_default(elem):
+        return z3.K(idx_z3sort, default_term(elem))
+    key = (str(idx_z3sort), elem.name())
+    if key not in _DARR:
+        a = z3.Const("dfltarr_%s_%s" % (str(idx_z3sort).replace(" ", "_"), elem.name()), z3.ArraySort(idx_z3sort, elem.z3()))
+        i = z3.Const("dflt_i_%s" % str(idx_z3sort).replace(" ", "_"), idx_z3sort)
+        DEFAULT_AXIOMS.append(z3.ForAll([i], z3.Select(a, i) == default_term(elem)))
+        _DARR[key] = a
+    return _DARR[key]
 
 
 def default_term(s: Sort):
@@ -99,7 +128,7 @@ def default_term(s: Sort):
     if isinstance(s, TStrS):
         return z3.StringVal("")
     if isinstance(s, TList):
-        return s.mk(z3.IntVal(0), z3.K(z3.IntSort(), default_term(s.elem)))
+        return s.mk(z3.IntVal(0), const_array(z3.IntSort(), s.elem))
     if isinstance(s, TRec):
         return s.mk(*[default_term(fs) for _, fs in s.fields])
     if isinstance(s, TOpt):
@@ -325,8 +354,8 @@ def val_is(a: Val, b: Val):
 
 
 def empty_dict(s: TDict) -> VDict:
-    return VDict(s.mk(z3.IntVal(0), z3.K(z3.IntSort(), default_term(s.k)), z3.K(s.k.z3(), z3.IntVal(-1)),
-                      z3.K(s.k.z3(), default_term(s.v))), s)
+    return VDict(s.mk(z3.IntVal(0), const_array(z3.IntSort(), s.k), z3.K(s.k.z3(), z3.IntVal(-1)),
+                      const_array(s.k.z3(), s.v)), s)
 
 
 def dict_has(d: VDict, k: Val):
